@@ -251,7 +251,7 @@ JudgeIds(e, pre) ==
                  "ids", "C14", "a graph node identifier was handed out twice (or not monotonically)")
 \* the first steps (up to the driver's cap) must agree; a program that ends within the cap must end on both sides
 JudgeCli(e) ==
-  IF ~e.lib_done \/ e.cut THEN Expect(e.cli = SubSeq(e.lib, 1, Len(e.cli)) \/ e.lib = SubSeq(e.cli, 1, Len(e.lib)), "cli", "C14",
+  IF ~e.lib_done \/ e.cut THEN Expect((Len(e.cli) <= Len(e.lib) /\ e.cli = SubSeq(e.lib, 1, Len(e.cli))) \/ (Len(e.lib) <= Len(e.cli) /\ e.lib = SubSeq(e.cli, 1, Len(e.lib))), "cli", "C14",
                              "the command-line front end and the library disagree on the stacks of some step (diverging program)")
   ELSE Expect(e.cli = e.lib /\ e.done, "cli", "C14", "the command-line front end and the library disagree on the stacks of some step")
 
